@@ -453,6 +453,76 @@ def rule_A9(ctx) -> None:
         ctx.proved("A9", "queue-puts-awaited", mod.rel, f"{n} puts, all awaited")
 
 
+def _const_int(t) -> Optional[int]:
+    """fold max/min/len-free integer terms of constants"""
+    if t[0] == "c" and isinstance(t[1], int) and not isinstance(t[1], bool):
+        return t[1]
+    if t[0] == "call" and dotted(t[1]) in ("max", "min") and t[2]:
+        xs = [_const_int(a) for a in t[2]]
+        if all(x is not None for x in xs):
+            return max(xs) if dotted(t[1]) == "max" else min(xs)
+    if t[0] == "op" and t[1] in ("+", "-") and len(t) == 4:
+        a, b = _const_int(t[2]), _const_int(t[3])
+        if a is not None and b is not None:
+            return a + b if t[1] == "+" else a - b
+    return None
+
+
+def rule_A10(ctx) -> None:
+    """close(): the flush injects at least one sentinel for every receiver that no buffered item will wake up -
+    _flush_queue evaluated on every small (waiting receivers, buffered items) state"""
+    mod = ctx.repo.mod(M_CHANNEL)
+    fn = mod.func("AsyncChannel._flush_queue")
+    ctx.analysed("AsyncChannel._flush_queue")
+    S = N("self")
+    bad = None
+    n = 0
+    for w in range(0, 4):
+        for q in range(0, 3):
+            b = {A(S, "_flushed"): False, A(S, "_waiting_receivers"): w,
+                 ("call", A(A(S, "_queue"), "qsize"), (), ()): q, ("call", A(A(S, "_queue"), "empty"), (), ()): q == 0,
+                 ("call", A(A(S, "_queue"), "full"), (), ()): False}
+            paths = Interp(mod, bindings=b).run(fn)
+            ctx.count(len(paths))
+            for p in paths:
+                if p.outcome == "raise":
+                    continue
+                n += 1
+                count = 0
+                undecided = False
+                loops = [e for e in p.events if e.kind == "loop"]
+                puts = [e for e in p.events if e.kind == "call" and dotted(e.data[1]).endswith(("put", "put_nowait"))]
+                for e in puts:
+                    if not e.loops:
+                        count += 1
+                for lp in loops:
+                    inner = [e for e in puts if e.loops]
+                    if not inner:
+                        continue
+                    it = lp.data
+                    k = _const_int(it[2][0]) if it[0] == "call" and dotted(it[1]) == "range" and len(it[2]) == 1 else None
+                    if k is None:
+                        undecided = True
+                    else:
+                        count += max(0, k)
+                if p.valuation:
+                    undecided = True
+                need = max(0, w - q)
+                if undecided:
+                    bad = bad or ("undecided", w, q, None)
+                elif count < need:
+                    bad = ("short", w, q, count)
+    if bad and bad[0] == "short":
+        _, w, q, count = bad
+        ctx.refuted("A10", "_flush_queue:sentinels-cover-stranded-receivers", f"w={w},q={q},sentinels={count}", mod.loc(fn),
+                    f"with {w} blocked receivers and {q} buffered item(s) the flush injects {count} sentinel(s); {max(0, w - q)} receiver(s) will never be woken by an item and stay blocked "
+                    "after close()", "three blocked receivers, send(x), close(), cancel the receiver x was handed to")
+    elif bad:
+        ctx.inconclusive("A10", "_flush_queue:sentinels-cover-stranded-receivers", f"sentinel count not decided for w={bad[1]}, q={bad[2]}", mod.loc(fn))
+    else:
+        ctx.proved("A10", "_flush_queue:sentinels-cover-stranded-receivers", mod.loc(fn), f"{n} (waiting, buffered) states")
+
+
 def rule_G6(ctx, rule: str = "G6") -> None:
     """request termination in the client helpers"""
     mod = ctx.repo.mod(M_CLIENT)
@@ -518,7 +588,7 @@ def rule_G6(ctx, rule: str = "G6") -> None:
 
 def run(ctx) -> None:
     for name, fn in (("A1", rule_A1), ("A2", rule_A2), ("A3", rule_A3), ("A4", rule_A4), ("A5", rule_A5), ("A6", rule_A6),
-                     ("A8", rule_A8), ("A9", rule_A9), ("G6", lambda c: rule_G6(c, "A7"))):
+                     ("A8", rule_A8), ("A9", rule_A9), ("A10", rule_A10), ("G6", lambda c: rule_G6(c, "A7"))):
         ctx.rules_run.append(name)
         fn(ctx)
     ctx.assume("asyncio is single-threaded: code between two awaits is atomic")
